@@ -1,0 +1,139 @@
+//go:build verif
+
+package compiler
+
+import (
+	"fmt"
+
+	"github.com/open2b/scriggo/ast"
+)
+
+// VerifToken is a token of the template lexer dumped as data.
+type VerifToken struct {
+	Typ     int    // tokenTyp
+	TypName string // tokenTyp.String()
+	Start   int
+	End     int
+	Line    int
+	Column  int
+	Lin     int // line of the lexer when the token was emitted
+	Ctx     int // ast.Context
+	Tag     string
+	Att     string
+	TxtLen  int // len(txt)
+	TxtNil  bool
+}
+
+// VerifLexResult is the outcome of a run of the template lexer.
+type VerifLexResult struct {
+	Tokens []VerifToken
+	// Err* describe the *SyntaxError stored in lexer.err, if any.
+	HasErr   bool
+	ErrLine  int
+	ErrCol   int
+	ErrStart int
+	ErrEnd   int
+	ErrMsg   string
+	// Panic is the text of a panic raised in the scan (only VerifLexTemplateRecover).
+	Panic string
+}
+
+func verifDump(tok token) VerifToken {
+	return VerifToken{
+		Typ: int(tok.typ), TypName: tok.typ.String(),
+		Start: tok.pos.Start, End: tok.pos.End, Line: tok.pos.Line, Column: tok.pos.Column,
+		Lin: tok.lin, Ctx: int(tok.ctx), Tag: tok.tag, Att: tok.att, TxtLen: len(tok.txt), TxtNil: tok.txt == nil,
+	}
+}
+
+func verifErr(res *VerifLexResult, err error) {
+	if err == nil {
+		return
+	}
+	res.HasErr = true
+	if e, ok := err.(*SyntaxError); ok {
+		res.ErrLine, res.ErrCol, res.ErrStart, res.ErrEnd = e.pos.Line, e.pos.Column, e.pos.Start, e.pos.End
+	}
+	if e, ok := err.(*SyntaxError); ok {
+		res.ErrMsg = e.msg
+	} else {
+		res.ErrMsg = err.Error()
+	}
+}
+
+// VerifLexTemplate runs the template lexer exactly as the parser does
+// (scanTemplate, lexer goroutine) and returns every token it sends. A run
+// time panic in the lexer goroutine terminates the process.
+func VerifLexTemplate(src []byte, format ast.Format, noParseShow bool) VerifLexResult {
+	lex := scanTemplate(src, format, noParseShow)
+	var res VerifLexResult
+	for tok := range lex.Tokens() {
+		res.Tokens = append(res.Tokens, verifDump(tok))
+	}
+	verifErr(&res, lex.error())
+	return res
+}
+
+// VerifLexTemplateRecover is VerifLexTemplate with the scan run in a
+// goroutine that recovers: a run time panic of the scan is reported in
+// Panic together with the tokens sent before it. The construction of the
+// lexer repeats scanTemplate; the harness compares the two functions.
+func VerifLexTemplateRecover(src []byte, format ast.Format, noParseShow bool) VerifLexResult {
+	tokens := make(chan token, 20)
+	lex := &lexer{
+		text:           src,
+		src:            src,
+		line:           1,
+		column:         1,
+		ctx:            ast.Context(format),
+		tokens:         tokens,
+		templateSyntax: true,
+		noParseShow:    noParseShow,
+	}
+	lex.tag.ctx = ast.ContextHTML
+	if lex.ctx == ast.ContextMarkdown {
+		lex.tag.ctx = ast.ContextMarkdown
+	}
+	var res VerifLexResult
+	go func() {
+		defer func() {
+			if r := recover(); r != nil {
+				res.Panic = fmt.Sprint(r)
+				close(tokens)
+			}
+		}()
+		lex.scan()
+	}()
+	for tok := range tokens {
+		res.Tokens = append(res.Tokens, verifDump(tok))
+	}
+	if res.Panic == "" {
+		verifErr(&res, lex.err)
+	}
+	return res
+}
+
+// VerifTokenTypeNames returns the name of every token type, indexed by type.
+func VerifTokenTypeNames() []string {
+	var names []string
+	for t := tokenText; t <= tokenUsing; t++ {
+		names = append(names, t.String())
+	}
+	return names
+}
+
+// VerifParseTemplateSource is ParseTemplateSource.
+func VerifParseTemplateSource(src []byte, format ast.Format, imported, noParseShow bool) (*ast.Tree, []ast.Node, error) {
+	return ParseTemplateSource(src, format, imported, noParseShow)
+}
+
+// VerifSyntaxErrorPosition returns the position of err if it is a *SyntaxError.
+func VerifSyntaxErrorPosition(err error) (ast.Position, bool) {
+	if e, ok := err.(*SyntaxError); ok {
+		return e.pos, true
+	}
+	return ast.Position{}, false
+}
+
+// VerifEndRawIndex is endRawIndex.
+func VerifEndRawIndex(src, marker []byte) int { return endRawIndex(src, marker) }
